@@ -119,3 +119,8 @@ mod tests {
         );
     }
 }
+
+// Verification hook: only the Kani compiler sets `cfg(kani)`; the harnesses live in /verif.
+#[cfg(kani)]
+#[path = "/verif/harness/shadow/crdt_harness.rs"]
+mod verif_kani;
